@@ -10,6 +10,7 @@ import (
 	"regexp"
 	"strconv"
 	"strings"
+	"time"
 
 	lua "github.com/yuin/gopher-lua"
 
@@ -529,8 +530,10 @@ func CheckSnaps(snaps []Snap) string {
 			return fmt.Sprintf("snap %s: open-upvalue list is not sorted: %v", s.Label, s.S.OpenUpvalues)
 		}
 		for _, u := range s.S.OpenUpvalues {
-			if u >= s.S.Top {
-				return fmt.Sprintf("snap %s: open upvalue at register %d at or above the registry top %d", s.Label, u, s.S.Top)
+			// the sample is taken inside the host function snap: the caller's registers all lie below the slot holding
+			// the function (LocalBase-1); an open upvalue at or above it points into a frame that no longer exists
+			if u >= s.S.LocalBase-1 {
+				return fmt.Sprintf("snap %s: open upvalue at register %d, beyond the caller's registers (below %d): it points into a dead frame", s.Label, u, s.S.LocalBase-1)
 			}
 		}
 		key := s.Thread + "/" + s.Label
@@ -541,9 +544,110 @@ func CheckSnaps(snaps []Snap) string {
 		}
 		delete(firstOf, key) // samples pair up: before, after, before, after, ...
 		a, b := f.S, s.S
-		if a.Sp != b.Sp || a.Top != b.Top || a.FrameIdx != b.FrameIdx || a.LocalBase != b.LocalBase || a.HasErrFunc != b.HasErrFunc || fmt.Sprint(a.OpenUpvalues) != fmt.Sprint(b.OpenUpvalues) {
+		// upvalues of the caller's own locals may have been opened in between (new closures), never closed
+		sub := true
+		have := map[int]bool{}
+		for _, u := range b.OpenUpvalues {
+			have[u] = true
+		}
+		for _, u := range a.OpenUpvalues {
+			if !have[u] {
+				sub = false
+			}
+		}
+		if a.Sp != b.Sp || a.Top != b.Top || a.FrameIdx != b.FrameIdx || a.LocalBase != b.LocalBase || !sub {
 			return fmt.Sprintf("snap %s: state before %+v differs from state after %+v", s.Label, a, b)
 		}
 	}
 	return ""
 }
+
+// DiffArgs runs src on both sides with numeric chunk arguments and compares.
+func DiffArgs(src string, args ...float64) (Verdict, string, *ROutcome, *GOutcome) {
+	var ra []luaref.Value
+	var ga []lua.LValue
+	for _, a := range args {
+		ra = append(ra, a)
+		ga = append(ga, lua.LNumber(a))
+	}
+	r := RunRef(src, &ROpts{Args: ra})
+	if r.ParseErr != nil || r.Unspecified != "" {
+		v, d := Compare(r, &GOutcome{})
+		return v, d, r, nil
+	}
+	o := BudgetFor(r)
+	o.Args = ga
+	g := RunGopher(src, o)
+	v, d := Compare(r, g)
+	return v, d, r, g
+}
+
+// GTraceStrings serialises a gopher-lua trace canonically (reference values by first-appearance identity), so that two
+// runs of gopher-lua can be compared with each other.
+func GTraceStrings(evs []GEvent) []string {
+	ids := map[lua.LValue]int{}
+	out := make([]string, 0, len(evs))
+	for _, e := range evs {
+		var b strings.Builder
+		b.WriteString(e.Kind)
+		for _, v := range e.Vals {
+			b.WriteByte(' ')
+			switch x := v.(type) {
+			case lua.LNumber:
+				f := float64(x)
+				if f != f {
+					b.WriteString("n:nan")
+				} else {
+					fmt.Fprintf(&b, "n:%016x", math.Float64bits(f))
+				}
+			case lua.LString:
+				b.WriteString(strconv.Quote(string(x)))
+			case lua.LBool:
+				fmt.Fprint(&b, bool(x))
+			case *lua.LNilType:
+				b.WriteString("nil")
+			default:
+				if v == nil {
+					b.WriteString("<Go nil>")
+					break
+				}
+				id, ok := ids[v]
+				if !ok {
+					id = len(ids) + 1
+					ids[v] = id
+				}
+				fmt.Fprintf(&b, "%s#%d", v.Type(), id)
+			}
+		}
+		out = append(out, b.String())
+	}
+	return out
+}
+
+// OneShotCtx is a context whose Done() channel is closed on exactly its K-th call and open on every other call: it
+// injects a single error at the K-th instruction dispatch of the thread it is attached to, without any source change.
+type OneShotCtx struct {
+	K     int64
+	N     int64
+	open  chan struct{}
+	shut  chan struct{}
+	Fired bool
+}
+
+func NewOneShotCtx(k int64) *OneShotCtx {
+	c := &OneShotCtx{K: k, open: make(chan struct{}), shut: make(chan struct{})}
+	close(c.shut)
+	return c
+}
+
+func (c *OneShotCtx) Done() <-chan struct{} {
+	c.N++
+	if c.N == c.K {
+		c.Fired = true
+		return c.shut
+	}
+	return c.open
+}
+func (c *OneShotCtx) Err() error                        { return context.Canceled }
+func (c *OneShotCtx) Deadline() (time.Time, bool)       { return time.Time{}, false }
+func (c *OneShotCtx) Value(key interface{}) interface{} { return nil }
